@@ -137,6 +137,13 @@ fn c08(out: &mut Out, decl: &Value, exhaustive: bool, seed: u64) {
         for i in &iv {
             if i.1 - i.0 > 100_000 { continue; } // an absurd interval is reported by the sweep event itself
             for n in i.0..=i.1 {
+                // an accepted number that is not a declared discriminant is an undefined-behaviour value:
+                // never format it (the sweep event already reports it)
+                let declared = decl["enums"][*kind]["values"].as_array().map(|vs| vs.iter().any(|v| v[1].as_u64() == Some(n as u64))).unwrap_or(false);
+                if !declared {
+                    out.ev(json!({"ev": "name", "kind": kind, "value": jw(n), "debug": "<undeclared discriminant>", "has_fromstr": false, "parsed": [], "variant_value": []}));
+                    continue;
+                }
                 let name = enum_debug(kind, n).unwrap_or_default();
                 let parsed = if enum_has_fromstr(kind) { enum_from_str(kind, &name) } else { None };
                 out.ev(json!({"ev": "name", "kind": kind, "value": jw(n), "debug": name, "has_fromstr": enum_has_fromstr(kind), "parsed": jo(parsed),
@@ -151,7 +158,7 @@ fn c08(out: &mut Out, decl: &Value, exhaustive: bool, seed: u64) {
             }
         }
         if enum_has_fromstr(kind) {
-            let first = enum_debug(kind, iv.first().map(|i| i.0).unwrap_or(0)).unwrap_or_default();
+            let first = decl["enums"][*kind]["values"][0][0].as_str().unwrap_or("X").to_string();
             for miss in [String::new(), first.to_lowercase() + "_", format!("{}_zz", first), format!(" {}", first), "Op".to_string() + &first, "\u{0}".to_string()] {
                 out.ev(json!({"ev": "nearmiss", "kind": kind, "name": miss, "parsed": jo(enum_from_str(kind, &miss))}));
             }
@@ -211,6 +218,8 @@ fn c09(out: &mut Out, decl: &Value) {
         let kind = if is_gl { "GLOp" } else { "CLOp" };
         for n in 0..4096u32 {
             if enum_from_u32(kind, n).is_some() {
+                let declared = decl["enums"][kind]["values"].as_array().map(|vs| vs.iter().any(|v| v[1].as_u64() == Some(n as u64))).unwrap_or(false);
+                if !declared { out.ev(json!({"ev": "get", "table": table, "n": n, "from_u32": true, "op_debug": "<undeclared discriminant>", "get": []})); continue; }
                 let name = enum_debug(kind, n).unwrap_or_default();
                 let g = catch(|| if is_gl { let e = grammar::GlslStd450InstructionTable::get(spirv::GLOp::from_u32(n).unwrap()); (e.opcode, e.opname.to_string()) }
                                  else { let e = grammar::OpenCLStd100InstructionTable::get(spirv::CLOp::from_u32(n).unwrap()); (e.opcode, e.opname.to_string()) }).ok();
@@ -253,9 +262,13 @@ fn c17(out: &mut Out, decl: &Value, seed: u64) {
         }
     }
     // (2) id_ref_any / id_ref_any_mut / From / unwrap for every operand variant
-    for variant in OPERAND_VARIANTS {
-        // a representative payload
+    let id_payloads: [u32; 5] = [0x00ab_cdef, 0, 1, u32::MAX, 0x8000_0000];
+    for (variant, round) in OPERAND_VARIANTS.iter().flat_map(|v| (0..5usize).map(move |r| (v, r))) {
+        let is_id = matches!(*variant, "IdRef" | "IdScope" | "IdMemorySemantics");
+        if round > 0 && !is_id { continue; }
+        // a representative payload (ids: boundary payloads too)
         let (w, s): (Vec<u32>, &str) = match *variant {
+            _ if is_id => (vec![id_payloads[round]], ""),
             "LiteralString" => (vec![], "str\u{e9}"),
             "LiteralBit64" => (vec![0x1111_2222, 0x3333_4444], ""),
             "LiteralSpecConstantOpInteger" => (vec![128], ""),
